@@ -110,7 +110,7 @@ def split_calls(events: list[dict]) -> list[list[dict]]:
 def run_policy_scenario(pcfg: dict, events: list[dict], *, entry: str = "Policy", perm=None,
                         place: str = "call", async_callbacks: bool = False,
                         on_suspend=None, hook_fault=None, site_fault=None, hooks: bool = False,
-                        probe_after: bool = False) -> list[dict]:
+                        probe_after: bool = False, flavours: str | None = None) -> list[dict]:
     """entry: "Policy" or "AsyncPolicy".  Returns the observed event list."""
     is_async = entry.startswith("Async")
     if not pcfg["retry"]:
@@ -119,6 +119,9 @@ def run_policy_scenario(pcfg: dict, events: list[dict], *, entry: str = "Policy"
                     hook_fault=hook_fault)
     env.clock.ticks = vtime.BASE_TICKS
     env.site_fault = site_fault
+    # kinds of values (exception types, Classification objects, falsy results ...): with a retry
+    # component only - without one default_classifier decides the class from the exception itself
+    env.flavours = flavours if pcfg["retry"] else None
     import redress.policy as rp
 
     with vtime.use_clock(env.clock):
